@@ -11,8 +11,8 @@ RULE = ('score tensors N(1-8) x C(2-40) x T(1-60) built from a chosen arg-max pa
 ASSUMPTIONS = ['for exact arg-max ties (class exact_ties: quantised outputs) only the agreement of the engine decoder and the stand-alone decoder is required (the statement gives no tie rule for the reference collapse); frames of engine output with margin < 1e-4 are skipped as ambiguous elsewhere',
                'blank is the last class; 3-D tensors only (the 2-D branch of the engine decoder is not reachable from the repository)']
 N = {'quick': 5000, 'thorough': 300000}
-CLASSES = ['random', 'lead_trail_blank', 'all_blank', 'repeats_split', 'first_nonblank', 'last_class', 'identical_rows', 'different_rows', 'single_frame', 'engine', 'exact_ties']
-REQUIRED = ['separator_lines', 'run_ocr_logits_compared', 'tie_lines', 'engine_lines', 'standalone_lines', 'filtration_lines', 'run_ocr_lines']
+CLASSES = ['random', 'lead_trail_blank', 'all_blank', 'repeats_split', 'first_nonblank', 'last_class', 'identical_rows', 'different_rows', 'single_frame', 'engine', 'exact_ties', 'large_alphabet', 'near_ties']
+REQUIRED = ['alphabets_over_256_classes', 'near_tie_lines', 'earlier_run_ocr_results_rechecked', 'separator_lines', 'run_ocr_logits_compared', 'tie_lines', 'engine_lines', 'standalone_lines', 'filtration_lines', 'run_ocr_lines']
 
 
 def setup(ctx):
@@ -44,6 +44,32 @@ def gen(rng, i, ctx):
         data[rng.random(size=(n, 1, w, 1)).repeat(16, 1).repeat(3, 3) < 0.4] = 0
         return {'cls': cls, 'data': data}
     N_, C, T = int(rng.integers(1, 9)), int(rng.integers(2, 41)), int(rng.integers(1, 61))
+    if cls == 'large_alphabet':
+        C = int(rng.choice([256, 257, 258, 300, 512, 1000]))          # real alphabets (CJK, mixed scripts) have hundreds to thousands of classes
+    if cls == 'near_ties':
+        # the two best symbols of a frame differ by one or a few units in the last place; or all scores lie where exp() under/overflows
+        C = int(rng.integers(3, 8))
+        T = int(rng.integers(2, 20))
+        mode = str(rng.choice(['ulp_normalised', 'far_negative_raw', 'far_positive_raw', 'ulp_normalised32']))
+        rows = []
+        for t in range(T):
+            a, b = [int(x) for x in rng.choice(C, size=2, replace=False)]
+            if mode.startswith('ulp'):
+                dt = np.float32 if mode.endswith('32') else np.float64
+                rest = rng.random(C) * 1e-3
+                rest[[a, b]] = 0
+                half = dt((1.0 - rest.sum()) / 2)
+                lo = np.log(half.astype(np.float64)) if dt is np.float64 else np.log(half)
+                r = np.log(np.maximum(rest, 1e-300)).astype(dt)
+                r[a] = dt(lo)
+                r[b] = np.nextafter(dt(lo), dt(0), dtype=dt) if rng.random() < 0.7 else dt(lo)
+                for _ in range(int(rng.integers(0, 3))):
+                    r[b] = np.nextafter(r[b], dt(0), dtype=dt)
+            else:
+                base = -1000.0 if mode == 'far_negative_raw' else 800.0
+                r = base + rng.normal(size=C) * 20
+            rows.append(np.asarray(r, dtype=np.float64 if not mode.endswith('32') else np.float32))
+        return {'cls': cls, 'matrix': np.stack(rows), 'mode': mode, 'C': C}
     if cls == 'exact_ties':
         # quantised / saturated outputs: exact ties between the best symbols of a frame (also between blank and a character)
         C = int(rng.integers(2, 6))
@@ -138,6 +164,15 @@ def check(case, mon, ctx):
         if logits.shape != direct.shape or np.abs(logits - direct).max(initial=0) > 1e-5 * max(1.0, float(np.abs(direct).max(initial=0))):
             mon.violation('run_ocr-logits-are-the-network-output', {'max_abs_diff': float(np.abs(logits - direct).max(initial=0)) if logits.shape == direct.shape else None,
                           'shapes': [list(logits.shape), list(direct.shape)]})
+        # history on the long-lived engine: what an earlier run_ocr call returned is still that batch's network output after this call
+        prev = getattr(ctx, 'prev_run_ocr', None)
+        if prev is not None:
+            mon.count('earlier_run_ocr_results_rechecked')
+            p_logits, p_direct, p_decoded, p_decoded_copy = prev
+            if p_logits.shape != p_direct.shape or np.abs(p_logits - p_direct).max(initial=0) > 1e-5 * max(1.0, float(np.abs(p_direct).max(initial=0))) or p_decoded != p_decoded_copy:
+                mon.violation('run_ocr-logits-are-the-network-output', {'note': 'the logits returned by an EARLIER run_ocr call changed when the engine processed the next batch',
+                              'shapes': [list(p_logits.shape), list(p_direct.shape)]})
+        ctx.prev_run_ocr = (logits, direct.copy(), decoded, list(decoded))
         sc = np.ascontiguousarray(np.transpose(logits, (0, 2, 1)))
         chars = list(eng.characters[:-1])
         nontriv, am = check_tensor(sc, list(eng.characters), chars, mon, ctx, site='run_ocr')
@@ -154,7 +189,33 @@ def check(case, mon, ctx):
             mon.mark_nontrivial({'engine_paths': am})
         return
     C = case['C']
-    chars = [chr(0x61 + k) for k in range(C - 1)]
+    chars = [chr(0x61 + k) for k in range(C - 1)] if C <= 41 else [chr(0x4e00 + k) for k in range(C - 1)]
+    if C > 256:
+        mon.count('alphabets_over_256_classes')
+    if case['cls'] == 'near_ties':
+        # no conversion between the matrix and the decoders: the arg-max of every frame is well defined whenever the two best values differ at all
+        m = case['matrix']
+        raw = not case['mode'].startswith('ulp')
+        exp_path = [max(range(C), key=lambda c: (float(m[t, c]), -c)) for t in range(m.shape[0])]
+        distinct = all(sorted(m[t].tolist())[-1] != sorted(m[t].tolist())[-2] for t in range(m.shape[0]))
+        if not distinct:
+            mon.skip_ambiguous('exact-tie')
+            return
+        exp = collapse(np.array(exp_path), C - 1, chars)
+        gd = ctx.decoders.GreedyDecoder(chars + [ctx.decoders.BLANK_SYMBOL])
+        mon.count('near_tie_lines')
+        mon.count('near_tie_mode:' + case['mode'])
+        try:
+            g = gd(m.copy(), max_unnormalization=float('inf')).best_hyp() if raw else gd(m.copy()).best_hyp()
+        except Exception as e:
+            g = 'EXCEPTION ' + repr(e)[:200]
+        if g != exp:
+            mon.violation('standalone-greedy', {'site': 'near ties / extreme magnitudes: ' + case['mode'], 'got': g, 'expected': exp, 'path': exp_path})
+        got = ctx.poe.greedy_decode_ctc(ctx.torch.from_numpy(np.ascontiguousarray(m.T[None]).copy()), chars + ['​'])
+        if got[0] != exp:
+            mon.violation('engine-greedy', {'site': 'near ties / extreme magnitudes: ' + case['mode'], 'got': got[0], 'expected': exp, 'path': exp_path})
+        mon.mark_nontrivial({'near_ties': m})
+        return
     if case['cls'] == 'exact_ties':
         # the statement fixes no tie rule for the arg-max, but its second sentence still demands that the engine's batched decoder
         # and the stand-alone decoder produce the same text for the same network output
